@@ -116,6 +116,10 @@ let rec val_of_sexp (s : Sexp.t) : value =
   | L [A "f"; A "nan"] -> VFloat cANON_NAN
   | L [A "f"; A n] -> VFloat (z_of_string n)
   | L [A "b"; A b] -> VBool (b = "true")
+  | L [A "fun"; A id; L [A "fun"; L ps; r]] ->
+      VFun (nat_of_int (int_of_string id), List.map ty_of_sexp ps, ty_of_sexp r)
+  | L [A "mut"; A id; t; _] -> VMut (nat_of_int (int_of_string id), ty_of_sexp t)
+  | L [A "mut"; A id; t] -> VMut (nat_of_int (int_of_string id), ty_of_sexp t)
   | L [A "s"; S str] -> VString (ident_of_string str)
   | L (A "arr" :: vs) -> arr_of (List.map val_of_sexp vs)
   | L (A "arrt" :: t :: vs) -> VArr (ty_of_sexp t, List.map val_of_sexp vs)
@@ -140,7 +144,7 @@ let rec val_to_string (types : bool) (v : value) : string =
       else "(fun " ^ string_of_int (int_of_nat id) ^ ")"
   | VArr (et, vs) ->
       let e = String.concat "" (List.map (fun x -> " " ^ sub x) vs) in
-      if types then "(arr " ^ ty_to_string et ^ e ^ ")" else "(arr" ^ e ^ ")"
+      if types then "(arrt " ^ ty_to_string et ^ e ^ ")" else "(arr" ^ e ^ ")"
   | VTup vs -> "(tup" ^ String.concat "" (List.map (fun x -> " " ^ sub x) vs) ^ ")"
   | VMut (loc, t) ->
       if types then "(mut " ^ string_of_int (int_of_nat loc) ^ " " ^ ty_to_string t ^ ")"
